@@ -249,6 +249,7 @@ l1_type!(v4, (u64, Option<String>));
 l1_type!(v5, (u64, Box<String>));
 l1_type!(v6, (u64, Result<String, String>));
 l1_type!(v7, (u64, (String, Vec<u8>)));
+l1_type!(v8, (u64, u8, String));
 
 pub fn vtype_name(v: u8) -> &'static str {
     match v {
@@ -259,7 +260,8 @@ pub fn vtype_name(v: u8) -> &'static str {
         4 => <(u64, Option<String>) as HVal>::NAME,
         5 => <(u64, Box<String>) as HVal>::NAME,
         6 => <(u64, Result<String, String>) as HVal>::NAME,
-        _ => <(u64, (String, Vec<u8>)) as HVal>::NAME,
+        7 => <(u64, (String, Vec<u8>)) as HVal>::NAME,
+        _ => <(u64, u8, String) as HVal>::NAME,
     }
 }
 
@@ -272,7 +274,8 @@ pub fn exec(case: &Case1, log: Option<&mut Vec<String>>) -> Exec1 {
         4 => v4::exec(case, log),
         5 => v5::exec(case, log),
         6 => v6::exec(case, log),
-        _ => v7::exec(case, log),
+        7 => v7::exec(case, log),
+        _ => v8::exec(case, log),
     }
 }
 
@@ -557,6 +560,7 @@ pub fn dyn_drv(vtype: u8, fl: Flavour) -> Box<dyn Dyn1> {
         4 => dyn_arm!(v4, fl),
         5 => dyn_arm!(v5, fl),
         6 => dyn_arm!(v6, fl),
-        _ => dyn_arm!(v7, fl),
+        7 => dyn_arm!(v7, fl),
+        _ => dyn_arm!(v8, fl),
     }
 }
